@@ -18,12 +18,17 @@ use zerv::version::{BuildMetadata, PEP440, PreReleaseIdentifier, SemVer};
 struct Out {
     found: usize,
     cases: u64,
+    per_class: std::collections::BTreeMap<String, usize>,
 }
 impl Out {
+    /// a message may start with `class=<name> `: the obligation the disagreement is reported under (5 lines are printed per class)
     fn cex(&mut self, fam: &str, msg: String) {
-        if self.found < 5 {
+        let class = if msg.starts_with("class=") { msg.split(' ').next().unwrap_or("").to_string() } else { String::new() };
+        let n = self.per_class.entry(class).or_insert(0);
+        if *n < 5 {
             println!("CEX {fam} {msg}");
         }
+        *n += 1;
         self.found += 1;
     }
 }
@@ -427,7 +432,8 @@ fn branch_rules_sets(out: &mut Out) {
                 out.cex("branch_rules", format!("resolve_for_branch({b:?}) gives label {:?} / mode {:?}, first matching rule gives {:?} / {:?}", res.pre_release_label, res.post_mode, wl, wm));
             }
             // "pre-release label and number taken from explicit flags or else the first matching rule"
-            for (fl, fnum, fmode) in [(None, None, None), (Some("rc".to_string()), Some(42u32), Some("tag".to_string())), (None, Some(5u32), None)] {
+            for (fl, fnum, fmode) in [(None, None, None), (Some("rc".to_string()), Some(42u32), Some("tag".to_string())), (None, Some(5u32), None),
+                                      (Some("beta".to_string()), None, None), (None, None, Some("tag".to_string())), (Some("rc".to_string()), None, Some("commit".to_string()))] {
                 out.cases += 1;
                 let mut cfg = BranchRulesConfig { pre_release_label: fl.clone(), pre_release_num: fnum, post_mode: fmode.clone(), branch_rules: rules.clone() };
                 let vars = ZervVars { major: Some(1), bumped_branch: if b.is_empty() { None } else { Some(b.to_string()) }, ..Default::default() };
@@ -442,6 +448,12 @@ fn branch_rules_sets(out: &mut Out) {
                 if let Some(n) = fnum {
                     if cfg.pre_release_num != Some(n) {
                         out.cex("branch_rules", format!("explicit --pre-release-num {n} lost for branch {b:?}: {:?}", cfg.pre_release_num));
+                    }
+                } else {
+                    // no explicit number: the first matching rule's number (explicit, else taken from the branch name), whatever other flags are given
+                    let wn = if b.is_empty() { None } else { res.pre_release_num };
+                    if cfg.pre_release_num != wn {
+                        out.cex("branch_rules", format!("apply_branch_rules(branch {b:?}, flags label={fl:?} mode={fmode:?}, no number flag) -> number {:?}, the first matching rule gives {wn:?}", cfg.pre_release_num));
                     }
                 }
             }
@@ -912,6 +924,10 @@ fn placement_family(out: &mut Out, semver: bool) {
         vec![C::Var(Var::BumpedBranch), C::Var(Var::Minor), C::Str("".into()), C::Str("1.2".into())],
         vec![C::UInt(4294967296), C::UInt(1), C::Var(Var::Dirty), C::UInt(2), C::UInt(3), C::UInt(4)],
         vec![C::Var(Var::Minor), C::Var(Var::Patch), C::Str("-".into()), C::Var(Var::LastTimestamp)],
+        // values that are not integers as given but sanitise to digits, or digits with a sign / padding
+        vec![C::Str("#7".into()), C::Var(Var::Major), C::Var(Var::Minor), C::Var(Var::Patch)],
+        vec![C::Var(Var::Major), C::Str("+7".into()), C::Str(" 8".into()), C::Var(Var::Custom("offset".into())), C::Var(Var::Patch), C::Str("9-".into())],
+        vec![C::Str("v1".into()), C::Str("1.2".into()), C::Str("1e3".into()), C::UInt(5), C::Str("٣".into())],
     ];
     let extras: Vec<Vec<C>> = vec![
         vec![],
@@ -940,6 +956,7 @@ fn placement_family(out: &mut Out, semver: bool) {
                             bumped_branch: branch.map(String::from),
                             bumped_commit_hash: branch.map(|_| "0A1b2c3d4e5f".to_string()),
                             last_timestamp: Some(1710511845),
+                            custom: serde_json::json!({"offset": -7, "name": "X.y"}),
                             ..Default::default()
                         });
                     }
@@ -1042,9 +1059,225 @@ fn placement_family(out: &mut Out, semver: bool) {
     }
 }
 
+// ------------------------------------------------------------------ parse → print round trips (C08, C09) and greatest tag (C10, C11)
+// Bounded stand-ins for the parser/printer code behind the regexes (regex captures, split/map/collect, format!/join),
+// which no contract reaches.  A `class=<name>` prefix names the obligation a disagreement is reported under.
+
+fn semver_roundtrip_family(out: &mut Out) {
+    let fam = "semver_roundtrip";
+    let cores = ["0", "1", "10", "18446744073709551615"];
+    let pre_ids = ["0", "1", "23", "a", "-", "a-1", "0a", "alpha", "1a", "00a", "-0", "A", "rc", "18446744073709551615",
+                   "18446744073709551616", "99999999999999999999999", "100000000000000000000"];
+    let build_ids = ["0", "00", "01a", "b-", "-", "007", "1", "18446744073709551616", "Z"];
+    let mut pres: Vec<String> = vec![String::new()];
+    for a in pre_ids {
+        pres.push(format!("-{a}"));
+        for b in pre_ids {
+            pres.push(format!("-{a}.{b}"));
+        }
+    }
+    pres.push("-alpha.1.beta".into());
+    pres.push("-0.0.0".into());
+    let mut builds: Vec<String> = vec![String::new()];
+    for a in build_ids {
+        builds.push(format!("+{a}"));
+    }
+    builds.push("+00.b-.007".into());
+    builds.push("+a.18446744073709551616".into());
+    let big = |s: &str| s.split(|c: char| !c.is_ascii_digit()).any(|run| run.len() > 20 || (run.len() == 20 && run > "18446744073709551615"));
+    for (ci, core) in [("0", "0", "0"), ("1", "2", "3"), ("10", "0", "18446744073709551615"), ("0", "18446744073709551615", "1")].iter().enumerate() {
+        let _ = cores;
+        for pre in &pres {
+            for build in &builds {
+                if ci > 1 && !build.is_empty() && pre.len() > 8 {
+                    continue;
+                }
+                for v in ["", "v"] {
+                    out.cases += 1;
+                    let body = format!("{}.{}.{}{pre}{build}", core.0, core.1, core.2);
+                    let input = format!("{v}{body}");
+                    let class = if big(&format!("{pre}{build}")) { "class=identifier-above-u64-max " } else { "" };
+                    match SemVer::from_str(&input) {
+                        Err(e) => out.cex(fam, format!("{class}{input:?} matches the SemVer 2.0.0 grammar but was rejected: {e}")),
+                        Ok(p) => {
+                            let printed = p.to_string();
+                            if printed != body {
+                                out.cex(fam, format!("{class}{input:?} parsed and printed gives {printed:?}, not the input"));
+                            }
+                        }
+                    }
+                }
+            }
+        }
+    }
+    for core in ["18446744073709551616.0.0", "0.18446744073709551616.0", "v0.0.99999999999999999999"] {
+        out.cases += 1;
+        if let Err(e) = SemVer::from_str(core) {
+            out.cex(fam, format!("class=core-number-above-u64-max {core:?} matches the SemVer 2.0.0 grammar but was rejected: {e}"));
+        }
+    }
+    for bad in ["01.0.0", "1.0", "1.0.0-", "1.0.0-01", "1.0.0+", "1.0.0-a..b", " 1.0.0", "1.0.0 ", "1.0.0\n", "1.0.0-é", "١.0.0", "V1.0.0", "vv1.0.0",
+                "1.0.0-a+", "1.0.0+a+b", "1.0.0-a_b", "1.00.0", "1.0.0-1.02", "", "v", "1.0.0.0", "1.0.0-٣"] {
+        out.cases += 1;
+        if SemVer::from_str(bad).is_ok() {
+            out.cex(fam, format!("{bad:?} is outside the SemVer 2.0.0 grammar but was accepted"));
+        }
+    }
+}
+
+fn pep440_roundtrip_family(out: &mut Out) {
+    let fam = "pep440_roundtrip";
+    // (spelling, normal form) per field; numbers with leading zeros and above u32::MAX included
+    let epochs = [("", ""), ("0!", ""), ("2!", "2!"), ("002!", "2!"), ("4294967295!", "4294967295!"), ("4294967296!", "4294967296!")];
+    let releases = [("1", "1"), ("1.0", "1.0"), ("0.1.02", "0.1.2"), ("2024.3.15", "2024.3.15"), ("1.4294967296", "1.4294967296"), ("007", "7")];
+    let mut pres: Vec<(String, String)> = vec![("".into(), "".into())];
+    for (sp, nf) in [("a", "a"), ("alpha", "a"), ("b", "b"), ("beta", "b"), ("c", "rc"), ("rc", "rc"), ("pre", "rc"), ("preview", "rc"), ("A", "a"), ("RC", "rc"), ("Beta", "b")] {
+        for (i, s1) in ["", ".", "-", "_"].iter().enumerate() {
+            for (j, (n, nn)) in [("", "0"), ("0", "0"), ("1", "1"), ("012", "12"), ("4294967296", "4294967296")].iter().enumerate() {
+                if (i + j) % 2 == 1 && sp.len() > 2 {
+                    continue;
+                }
+                let s2 = if n.is_empty() { "" } else { ["", ".", "-", "_"][(i + j) % 4] };
+                pres.push((format!("{s1}{sp}{s2}{n}"), format!("{nf}{nn}")));
+            }
+        }
+    }
+    let posts = [("", ""), ("-1", ".post1"), (".post", ".post0"), ("post5", ".post5"), ("-rev-05", ".post5"), ("_r_0", ".post0"), (".POST.3", ".post3"),
+                 ("-4294967296", ".post4294967296"), (".post4294967296", ".post4294967296")];
+    let devs = [("", ""), (".dev", ".dev0"), ("dev3", ".dev3"), ("-DEV_03", ".dev3"), (".dev4294967296", ".dev4294967296")];
+    let locals = [("", ""), ("+abc", "+abc"), ("+ABC.1", "+abc.1"), ("+a-b_c", "+a.b.c"), ("+01.x", "+1.x"), ("+4294967296", "+4294967296"), ("+0A.00", "+0a.0"), ("+00000000000000000000001", "+1")];
+    let over = |s: &str| s.split(|c: char| !c.is_ascii_digit()).any(|run| {
+        let t = run.trim_start_matches('0');
+        t.len() > 10 || (t.len() == 10 && t > "4294967295")
+    });
+    let mut k = 0usize;
+    for (es, en) in epochs {
+        for (rs, rn) in releases {
+            for (ps, pn) in &pres {
+                for (qs, qn) in posts {
+                    for (ds, dn) in devs {
+                        for (ls, ln) in locals {
+                            k += 1;
+                            // thin the product: keep every pair of fields together at least once
+                            let busy = [!es.is_empty(), rs.len() > 1, !ps.is_empty(), !qs.is_empty(), !ds.is_empty(), !ls.is_empty()].iter().filter(|b| **b).count();
+                            if busy > 3 && k % 37 != 0 {
+                                continue;
+                            }
+                            // `1-1` style implicit post directly after a pre-release without number is ambiguous with the pre number: skip
+                            if qs.starts_with('-') && qs[1..].chars().all(|c| c.is_ascii_digit()) && !ps.is_empty() && !ps.chars().last().unwrap().is_ascii_digit() {
+                                continue;
+                            }
+                            for v in ["", "v", "V"] {
+                                if !v.is_empty() && k % 5 != 0 {
+                                    continue;
+                                }
+                                out.cases += 1;
+                                let input = format!("{v}{es}{rs}{ps}{qs}{ds}{ls}");
+                                let normal = format!("{en}{rn}{pn}{qn}{dn}{ln}");
+                                let class = if over(&format!("{es}{rs}{ps}{qs}{ds}")) { "class=number-above-u32-max " }
+                                    else if over(ls) { "class=local-number-above-u32-max " } else { "" };
+                                let parsed = match PEP440::from_str(&input) {
+                                    Ok(p) => p,
+                                    Err(e) => {
+                                        out.cex(fam, format!("{class}{input:?} matches the PEP 440 grammar but was rejected: {e}"));
+                                        continue;
+                                    }
+                                };
+                                let printed = parsed.to_string();
+                                if printed != normal {
+                                    out.cex(fam, format!("{class}{input:?} prints as {printed:?}; the PEP 440 normal form is {normal:?}"));
+                                    continue;
+                                }
+                                match PEP440::from_str(&printed) {
+                                    Err(e) => out.cex(fam, format!("{class}normal form {printed:?} of {input:?} was rejected: {e}")),
+                                    Ok(again) => {
+                                        if again.to_string() != printed {
+                                            out.cex(fam, format!("{class}normalising {input:?} is not idempotent: {printed:?} then {:?}", again.to_string()));
+                                        }
+                                        if again.cmp(&parsed) != Ordering::Equal || again != parsed {
+                                            out.cex(fam, format!("{class}{input:?} does not compare equal to its normal form {printed:?}"));
+                                        }
+                                    }
+                                }
+                            }
+                        }
+                    }
+                }
+            }
+        }
+    }
+    for bad in [" 1.0", "1.0 ", "1.0\n", "1..0", "1.0+", "1.0+a..b", "1.0-", "1.0a1b2", "a1", "1.0.dev1.post1", "1.0+é", "١.0", "1.0rc١", "1.0+a+b", "", "v", "1!", "!1.0", "1.0.postK", "1.0preſ1"] {
+        out.cases += 1;
+        if PEP440::from_str(bad).is_ok() {
+            out.cex(fam, format!("{bad:?} is outside the PEP 440 grammar but was accepted"));
+        }
+    }
+}
+
+fn tag_max_family(out: &mut Out, semver: bool) {
+    use zerv::vcs::git_utils::GitUtils;
+    use zerv::version::VersionObject;
+    let fam = if semver { "tag_max_semver" } else { "tag_max_pep440" };
+    let pool: Vec<&str> = if semver {
+        vec!["1.0.0", "v1.0.0", "1.0.0-alpha", "1.0.0-alpha.1", "1.0.0-alpha.beta", "1.0.0-beta", "1.0.0-beta.2", "1.0.0-beta.11", "1.0.0-rc.1",
+             "1.0.0+build", "1.0.1-0", "0.9.9", "1.0.0-1", "1.0.0-a", "1.0.0-A", "2.0.0-0", "1.10.0", "1.9.0", "not-a-version", "1.0"]
+    } else {
+        vec!["1.0", "v1.0.0", "1.0a1", "1.0.alpha.1", "1.0b2", "1.0rc1", "1.0.post1", "1.0-1", "1.0.dev1", "1.0a1.dev1", "1.0.post1.dev2", "1!0.1", "0!1.0",
+             "1.0+abc", "1.0+abc.1", "1.0+1", "1.0.1", "1.10", "1.9", "not-a-version", "1.0a"]
+    };
+    let format = if semver { "semver" } else { "pep440" };
+    let n = pool.len();
+    let key = |o: &VersionObject| -> String { match o { VersionObject::SemVer(s) => s.to_string(), VersionObject::PEP440(p) => p.to_string() } };
+    let geq = |a: &VersionObject, b: &VersionObject| -> bool {
+        match (a, b) {
+            (VersionObject::SemVer(x), VersionObject::SemVer(y)) => sv_precedence(x, y) != Ordering::Less,
+            (VersionObject::PEP440(x), VersionObject::PEP440(y)) => pep_key_prec(x, y) != Ordering::Less,
+            _ => false,
+        }
+    };
+    for i in 0..n {
+        for j in 0..n {
+            for k in 0..n {
+                if k % 3 != (i + j) % 3 && k != i {
+                    continue;
+                }
+                out.cases += 1;
+                let tags: Vec<String> = if k == i { vec![pool[i].to_string(), pool[j].to_string()] } else { vec![pool[i].to_string(), pool[j].to_string(), pool[k].to_string()] };
+                let valid = GitUtils::filter_only_valid_tags(&tags, format);
+                // every tag that parses in the format is kept, none is invented
+                for t in &tags {
+                    let parses = if semver { SemVer::from_str(t).is_ok() } else { PEP440::from_str(t).is_ok() };
+                    if parses != valid.iter().any(|(s, _)| s == t) {
+                        out.cex(fam, format!("tags {tags:?}: filter_only_valid_tags keeps {:?} although {t:?} parses = {parses}", valid.iter().map(|(s, _)| s.clone()).collect::<Vec<_>>()));
+                    }
+                }
+                match GitUtils::find_max_version_tag(&valid) {
+                    Err(e) => out.cex(fam, format!("tags {tags:?}: find_max_version_tag failed: {e}")),
+                    Ok(None) => {
+                        if !valid.is_empty() {
+                            out.cex(fam, format!("tags {tags:?}: no greatest tag returned although {} are valid", valid.len()));
+                        }
+                    }
+                    Ok(Some(best)) => {
+                        let Some((_, bo)) = valid.iter().find(|(s, _)| *s == best) else {
+                            out.cex(fam, format!("tags {tags:?}: greatest tag {best:?} is not one of the valid tags"));
+                            continue;
+                        };
+                        for (s, o) in &valid {
+                            if !geq(bo, o) {
+                                out.cex(fam, format!("tags {tags:?}: returned {best:?} ({}) but {s:?} ({}) has higher precedence", key(bo), key(o)));
+                            }
+                        }
+                    }
+                }
+            }
+        }
+    }
+}
+
 fn main() {
     let fam = std::env::args().nth(1).unwrap_or_default();
-    let mut out = Out { found: 0, cases: 0 };
+    let mut out = Out { found: 0, cases: 0, per_class: Default::default() };
     std::panic::set_hook(Box::new(|info| {
         if let Ok(mut g) = LAST_PANIC.lock() {
             *g = info.to_string();
@@ -1082,6 +1315,10 @@ fn run_family(fam: &str, out: &mut Out) {
         "resolve_barrier" => barrier_family(&mut out),
         "template_functions" => template_family(&mut out),
         "semver_from_zerv" => placement_family(&mut out, true),
+        "semver_roundtrip" => semver_roundtrip_family(&mut out),
+        "pep440_roundtrip" => pep440_roundtrip_family(&mut out),
+        "tag_max_semver" => tag_max_family(&mut out, true),
+        "tag_max_pep440" => tag_max_family(&mut out, false),
         "pep440_from_zerv" => placement_family(&mut out, false),
         _ => {
             eprintln!("unknown family {fam}");
